@@ -29,11 +29,19 @@ AnyHist(k) ==
       vv(c) == LET s == SelectSeq(digs(c), LAMBDA d : d # 0) IN IF s = <<>> THEN <<1>> ELSE s
   IN [par |-> DagOf(k[1]), tm |-> TmOf(k[2]), ver |-> [c \in 1..5 |-> vv(c)]]
 
+\* key <<dag, tm, v123, v45>>: increasing versions over 6 symbols, any subset per commit (6 bits each): symbols are
+\* introduced independently on several branches and re-introduced - the first-parent-determinate class
+FPHist(k) ==
+  LET bits(c) == IF c <= 3 THEN {s \in 1..6 : Bit(k[3], (c - 1) * 6 + s)} ELSE {s \in 1..6 : Bit(k[4], (c - 4) * 6 + s)}
+  IN [par |-> DagOf(k[1]), tm |-> TmOf(k[2]), ver |-> [c \in 1..5 |-> Asc(IF bits(c) = {} THEN {c} ELSE bits(c))]]
+\* both sides of a merge create the same lines independently; the second parent is the younger side
+HBoth  == [par |-> << <<>>, <<1>>, <<2>>, <<1>>, <<3, 4>> >>, tm |-> <<1, 2, 3, 4, 5>>,
+           ver |-> << <<5>>, <<1, 2, 5>>, <<1, 2, 3, 5>>, <<1, 2, 4, 5>>, <<1, 2, 3, 4, 5>> >>]
 \* hand-made: a move, a duplicate, a revert, an unchanged merge, a merge that keeps both sides
 HMove  == [par |-> << <<>>, <<1>>, <<2>> >>, tm |-> <<1, 2, 3>>, ver |-> << <<1, 2, 3>>, <<2, 3, 1>>, <<2, 3, 1, 1>> >>]
 HRevert == [par |-> << <<>>, <<1>>, <<2>>, <<3>> >>, tm |-> <<1, 2, 3, 4>>, ver |-> << <<1, 2>>, <<1>>, <<1, 2>>, <<1, 2>> >>]
 HMerge == [par |-> << <<>>, <<1>>, <<1>>, <<2, 3>>, <<4>> >>, tm |-> <<1, 3, 2, 4, 5>>,
            ver |-> << <<3, 6>>, <<2, 3, 6>>, <<3, 6, 8>>, <<2, 3, 4, 6, 8>>, <<2, 3, 4, 8, 10>> >>]
 HSame  == [par |-> << <<>>, <<1>>, <<1>>, <<3, 2>> >>, tm |-> <<1, 2, 2, 3>>, ver |-> << <<1>>, <<1, 2>>, <<1, 3>>, <<1, 2>> >>]
-MCFixedH == <<HMove, HRevert, HMerge, HSame>>
+MCFixedH == <<HMove, HRevert, HMerge, HSame, HBoth>>
 =============================================================================
